@@ -289,3 +289,38 @@ package main
 //@   panics may
 //@   returns go_type(ft)
 //@   note recursion through the function-typed parameter: the function's own contract is the induction hypothesis (partial correctness; structural recursion on a finite FType value)
+
+// ---------------------------------------------------------------------------------------------
+// gen_main.go: output discipline of the driver (C16, C07).  The file system is the abstract global
+// fsr / fsc.  Parsing and emission are abstract here: they may panic, and they write no files (that
+// frame is justified by the closed-world scan of the checker: sys.WriteFile has one caller).
+// ---------------------------------------------------------------------------------------------
+
+//@ func psSetNewSrc
+//@   trusted
+//@   panics may
+//@   note abstract: builds the tokenizer for the new source; the first token scan may panic (diagnostic)
+
+//@ func ParseAll
+//@   trusted
+//@   panics may
+//@   note abstract: the parser; errors are panics; writes no files (closed-world scan)
+
+//@ func RootStmtsToGo
+//@   trusted
+//@   panics may
+//@   note abstract: the emitter; returns the complete text of the output file; writes no files (closed-world scan)
+
+//@ func transpileOne
+//@   props C16 C07
+//@   modifies glob:stdout glob:fsr glob:fsc
+//@   ghost T string            -- the complete text returned by the emitter
+//@   ghost P ParseState        -- the parse state after this file
+//@   panics may
+//@   onpanic nothing-written: glob(fsc) == old(glob(fsc)) && glob(fsr) == old(glob(fsr))
+//@   ensures readable: old(glob(fsr))[file]
+//@   ensures complete-output: suffixof(".fo", file) ==> glob(fsc) == store(old(glob(fsc)), path_join(path_dir(file), "gen_" + substr(path_base(file), 0, len(path_base(file)) - 3) + ".go"), T) && glob(fsr) == store(old(glob(fsr)), path_join(path_dir(file), "gen_" + substr(path_base(file), 0, len(path_base(file)) - 3) + ".go"), true)
+//@   ensures foi-writes-nothing: !suffixof(".fo", file) ==> glob(fsc) == old(glob(fsc)) && glob(fsr) == old(glob(fsr))
+//@   ensures state-kept: result == P
+//@   at after call RootStmtsToGo#0: T = ret
+//@   at after call frt.Destr2#1: P = ret
